@@ -146,7 +146,25 @@ def gen_cases(rng, tier):
         assert c['hist'][-1] == 'q'
         cases.append({'id': 'c01-zippy-%d' % i, 'cfg': c['cfg'], 'files': c['files'], 'hist': c['hist'][:-1] + ['t%d' % DRAIN, 'q', 't50'],
                       'sub': 'ksim', 'tags': {'mode': 'zippychord'}})
+    # the processing loop may only sleep when nothing is pending: macros that END in custom actions (mouse buttons, a key after
+    # them or not), run once ticking every millisecond and once blocking whenever kanata says it may; the button must come up alike
+    from checks.common import loop_pairs
+    lp = []
+    tails = ['mlft mrgt', 'mlft mlft', 'S-b 20 mmid mlft', 'a mlft mmid mrgt', 'mlft', 'mlft 30 mrgt', 'b mrgt', 'mlft mrgt 5', '(unmod a) mlft mrgt']
+    for j, tl in enumerate(tails):
+        for rel in (2, 40):
+            cfg = '(defsrc a s d)\n(deflayer l0 (macro %s) (macro-release-cancel %s) c)' % (tl, tl)
+            lp.append({'id': 'c01-loopm-%d-%d' % (j, rel), 'cfg': cfg, 'sub': 'ksim', 'tags': {'mode': 'loop-pair-macro-ends-in-custom-actions'},
+                       'hist': ['t3', 'd30', 't%d' % rel, 'u30', 't150', 'd31', 't60', 'u31', 't150']})
+    cases += loop_pairs(lp)
     return cases
+
+
+def post(all_results, run_impl, rng, tier, stats):
+    from checks.common import loop_pair_violations
+    v = loop_pair_violations(all_results)
+    stats['loop_pairs'] = sum(1 for c, it, mt in all_results if c.get('loop_mode') == '1')
+    return v
 
 
 def oracle(case, it):
@@ -198,7 +216,7 @@ def oracle(case, it):
 
 
 SPEC = {
-    'id': 'C01', 'sub': 'ksim', 'gen_cases': gen_cases, 'nontrivial': trace_has_output, 'oracle': oracle,
+    'id': 'C01', 'sub': 'ksim', 'gen_cases': gen_cases, 'nontrivial': trace_has_output, 'oracle': oracle, 'post': post,
     'rule': 'random configs over the whole action grammar (virtual keys only with balanced operations) x consistent histories in which every '
             'pressed key is released, followed by %d quiet ticks; overflow modes: bursts beyond the 32-slot queue, >64 states, >8 tap-holds, '
             '>16 one-shots, >4 concurrent macros, mouse/scroll custom actions; ordered pairs of custom actions on one key; virtual keys of every action kind switched on and off by toggle / press+release / tap; chords v2 under random typing (min-idle windows), zippychord scenarios; non-trivial = output produced' % DRAIN,
